@@ -3,7 +3,8 @@
    gen_vote_needs_preparing    record_vote() rejects unless tx.phase == TxPhase::Preparing, and rejects duplicates
    gen_prepare_writes_store    TxParticipant::prepare contains a store write
    gen_abort_applies_undo      TxParticipant::abort re-applies the undo log
-   gen_timeouts_any_phase      cleanup_timeouts filters on is_timed_out() only (any phase)"""
+   gen_timeouts_any_phase      cleanup_timeouts filters on is_timed_out() only (any phase)
+   gen_participant_remembers   TxParticipant::prepare refuses a tx in `decided` before locking; commit and abort insert into it"""
 import os
 import re
 import sys
@@ -15,7 +16,7 @@ from rs2v import HEADER, find_fn, read, strip_comments  # noqa: E402
 def generate(repo):
     items = {}
     vals = {"gen_commit_needs_prepared": True, "gen_vote_needs_preparing": True, "gen_prepare_writes_store": False,
-            "gen_abort_applies_undo": True, "gen_timeouts_any_phase": True}
+            "gen_abort_applies_undo": True, "gen_timeouts_any_phase": True, "gen_participant_remembers": True}
     try:
         src = strip_comments(read(repo, "tensor_chain/src/distributed_tx.rs"))
     except Exception as ex:  # noqa: BLE001
@@ -56,6 +57,17 @@ def generate(repo):
             m = re.search(r"\.filter\s*\(\s*\|[^|]*\|\s*([^)]*\))\s*\)", body)
             return bool(m and re.sub(r"\s+", "", m.group(1)) == "tx.is_timed_out()")
 
+        def remembers():
+            _, pb = find_fn(src, "prepare", after=r"impl\s+TxParticipant\b")
+            g = re.search(r"self\s*\.\s*decided\s*\.\s*read\s*\(\s*\)\s*\.\s*contains\s*\(\s*&request\s*\.\s*tx_id\s*\)", pb)
+            lk = pb.find("try_lock(")
+            ok = bool(g and lk > 0 and g.start() < lk and "return PrepareVote::No" in pb[g.start():lk])
+            for fn in ("commit", "abort"):
+                _, b = find_fn(src, fn, after=r"impl\s+TxParticipant\b")
+                ok = ok and bool(re.search(r"self\s*\.\s*decided\s*\.\s*write\s*\(\s*\)\s*\.\s*insert\s*\(\s*tx_id\s*\)", b))
+            return ok
+
+        item("gen_participant_remembers", remembers)
         item("gen_commit_needs_prepared", commit_gate)
         item("gen_vote_needs_preparing", vote_gate)
         item("gen_prepare_writes_store", prepare_writes)
